@@ -458,6 +458,15 @@ func (rtcmHandler *Handler) GetMessage(bitStream []byte) (*Message, error) {
 
 		const timestampPosition = utils.LeaderLengthBits + header.LenMessageType + header.LenStationID
 
+		// The message must be long enough to contain the timestamp.
+		const minMessageBits = header.LenMessageType + header.LenStationID + header.LenTimeStamp
+		if messageLength*8 < minMessageBits {
+			message.ErrorMessage = fmt.Sprintf(
+				"message type %d is %d bytes long, too short to contain a timestamp",
+				messageType, messageLength)
+			return message, errors.New(message.ErrorMessage)
+		}
+
 		message.Timestamp =
 			uint(utils.GetBitsAsUint64(bitStream, timestampPosition, header.LenTimeStamp))
 
